@@ -205,6 +205,47 @@ def install(I):
 
     C['google.golang.org/protobuf/proto.Clone'] = proto_clone
 
+    # ---------------- access-controller address: injective in the access map (JSON + hash by contract)
+    def json_marshal(I, args, ins):
+        v = args[0]
+        m = v.v if isinstance(v, Iface) else v
+        if isinstance(m, MapVal):
+            parts = []
+            items = sorted(m.items, key=lambda kv: kv[0] if isinstance(kv[0], str) else '~')
+            for k, val in items:
+                els = val.elems() if val is not None else []
+                parts.append(T.app('kv', I.str_term(k), *[I.str_term(e) for e in els]))
+            t = T.app('json', *parts)
+            I.add(T.blen(t) >= 2)
+            return (TermBytes(t), None)
+        raise Inconclusive('json.Marshal of %r' % (m,))
+
+    C['encoding/json.Marshal'] = json_marshal
+
+    def prefix_sum(I, args, ins):
+        pref, data = args
+        t = T.app('cidsum', I.bytes_term(data))
+        I.add(T.blen(t) >= 1)
+        return (ipfslog.cid_value(I, t), None)
+
+    C['(github.com/ipfs/go-cid.Prefix).Sum'] = prefix_sum
+
+    def ac_get(field):
+        def f(I, args, ins):
+            p = args[0]
+            sv = p.load()
+            t = I.prog.types.get(sv.tid)
+            for i, fl in enumerate(t.under().fields):
+                if fl['name'] == field:
+                    return copyval(sv[i])
+            raise Inconclusive('field %s of access controller options' % field)
+        return f
+
+    AC = '(*berty.tech/go-orbit-db/accesscontroller.CreateAccessControllerOptions).'
+    C[AC + 'GetAddress'] = ac_get('Address')
+    C[AC + 'GetType'] = ac_get('Type')
+    C[AC + 'GetSkipManifest'] = ac_get('SkipManifest')
+
     # ---------------- sequential relay of `go func(){...}()` with channels as recorded output lists
     def go_stmt(I, args, ins):
         f, fargs = args
